@@ -11,7 +11,7 @@ RULE = ("C01's systematic sweep and random histories with the fault replaced by 
         "socket call: KeyboardInterrupt, SystemExit, or a private BaseException subclass (gevent-Timeout-like). Every "
         "operation x every socket event of a fault-free dry run of it (for sendall: raised before anything was sent "
         "and after everything was sent) x Client / PooledClient (max 1, max 2) / HashClient (plain, pooled) x "
-        "ignore_exc off/on x cold/warm connection, followed by a store and a fetch on the same object. Oracle: the "
+        "ignore_exc off/on x cold/warm connection, followed by a store and a fetch on the same object; the same on pooled stacks with pool_idle_timeout set, where a connection has idled past the timeout and the call that evicts it is interrupted (also inside the close() of the stale socket). Oracle: the "
         "interruption reaches the caller as itself (never swallowed, not even under ignore_exc); right after it no "
         "pooled connection is checked out; C01's reply-ownership rules hold for all later calls (no cross-call read, "
         "no unread reply on an open connection, no read that can never be satisfied); a pool of size 1 serves the next "
@@ -84,12 +84,38 @@ def sweep_cases(tier, seed):
     return c01.sweep_cases(tier, seed, interrupts=True)
 
 
+def idle_sweep_cases(tier, seed):
+    """pooled stacks with an idle timeout: a connection idles past it, and the call that would evict it is interrupted at
+    every socket event it performs (including the close() of the stale socket)"""
+    lib = [r for r in faultlab.op_library() if r["op"] in ("get", "set", "get_many", "incr", "delete", "quit", "version", "set_many")][::2]
+    for kind, extra in (("pooled", {"max_pool_size": 1}), ("pooled", {"max_pool_size": 2}), ("hash-pooled", {"max_pool_size": 1})):
+        for idle in (5,):
+            for r in lib:
+                cfg = dict(extra, pool_idle_timeout=idle, ignore_exc=False)
+                base = {"kind": kind, "cfg": cfg, "follow": True,
+                        "calls": [{"op": {"op": "get", "key": "warmup"}}, {"op": r, "advance": idle + 1}] + c01.FOLLOW}
+                dry = interpret(base)
+                for ev_kind, nth in dry.events_by_call[1]:
+                    for f in faultlab.faults_for_event(ev_kind, nth, True):
+                        calls = [dict(c) for c in base["calls"]]
+                        calls[1] = dict(calls[1], faults=[f])
+                        yield dict(base, calls=calls)
+                # two idle expiries in a row, each interrupted
+                for ev_kind, nth in dry.events_by_call[1][:3]:
+                    f = faultlab.faults_for_event(ev_kind, nth, True)[0]
+                    calls = [dict(c) for c in base["calls"]]
+                    calls[1] = dict(calls[1], faults=[f])
+                    calls.insert(2, dict(calls[1], advance=idle + 1))
+                    yield dict(base, calls=calls)
+
+
 def history_strategy(tier):
     return c01.history_strategy(tier, interrupts=True)
 
 
 PARTS = [
     Part("interruption-sweep", "enum", check, cases=sweep_cases, exhaustive=True),
+    Part("idle-expiry-interruptions", "enum", check, cases=idle_sweep_cases, exhaustive=True),
     Part("random-histories", "hyp", check, strategy=history_strategy,
          examples={"quick": 300, "thorough": 2500}, shards={"quick": 4, "thorough": 16}),
 ]
